@@ -9,8 +9,9 @@ _units = [{"name": "oracle", "src": ["c07_selftest.cpp"], "variant": "asan",
            "configs": {"oracle_doc": {"quick": 3, "thorough": 3}, "oracle_insonly": {"quick": 800, "thorough": 20000},
                        "oracle_random": {"quick": 800, "thorough": 20000}}, "chunk": 100}]
 for _ct in _CT:
-    _cfg = {"mix_" + _ct: {"quick": 2200, "thorough": 110000}, "long_" + _ct: {"quick": 200, "thorough": 10000},
-            "insonly_" + _ct: {"quick": 250, "thorough": 10000}}
+    _cfg = {"mix_" + _ct: {"quick": 1500, "thorough": 80000}, "long_" + _ct: {"quick": 150, "thorough": 8000},
+            "churn_" + _ct: {"quick": 1000, "thorough": 50000},
+            "insonly_" + _ct: {"quick": 200, "thorough": 10000}}
     if _ct == "NAIVE_VECTOR":
         _cfg["exh3_" + _ct] = {"quick": _EXH_PREFIXES["quick"], "thorough": _EXH_PREFIXES["thorough"]}
     else:
